@@ -138,7 +138,7 @@ func c14Mutants(rng *rand.Rand, base []gtok, n int) []c14Case {
 	for len(out) < n {
 		ts := append([]gtok{}, base...)
 		how := ""
-		switch op := rng.Intn(6); op {
+		switch op := rng.Intn(7); op {
 		case 0: // deletion
 			j := rng.Intn(len(ts))
 			how = fmt.Sprintf("token %d (%s) deleted", j, ts[j].Text)
@@ -188,6 +188,26 @@ func c14Mutants(rng *rand.Rand, base []gtok, n int) []c14Case {
 			dup := append([]gtok{}, ts[j:k+1]...)
 			how = fmt.Sprintf("definition of %s duplicated", ts[j].Text)
 			ts = append(ts[:k+1], append(dup, ts[k+1:]...)...)
+		case 6: // a character sequence that is no token of the documented language
+			mid := []string{"/", "/", "/", "#", "@", "$", "=", "+", "*", ",", "~", "!", "<", ">", "''", "'ab'", "0", "%", "^", "&", "?", "\\"}
+			end := []string{"'", "\"", "`", "<<", "/*", "\"abc", "'a", "<< nil", "/* note", "/", "/", "/ x"}
+			var t gtok
+			j := rng.Intn(len(ts) + 1)
+			switch r := rng.Intn(10); {
+			case r < 2:
+				j = len(ts)
+				t = gtok{"illegal", end[rng.Intn(len(end))]}
+			case r < 4:
+				j = len(ts)
+				t = gtok{"illegal", mid[rng.Intn(len(mid))]}
+			case r < 5:
+				j = 0
+				t = gtok{"illegal", mid[rng.Intn(len(mid))]}
+			default:
+				t = gtok{"illegal", mid[rng.Intn(len(mid))]}
+			}
+			how = fmt.Sprintf("the characters %s, which form no token, inserted at %d", t.Text, j)
+			ts = append(ts[:j:j], append([]gtok{t}, ts[j:]...)...)
 		case 5: // an alternative left empty
 			var bars []int
 			for j, t := range ts {
@@ -215,7 +235,23 @@ func c14Mutants(rng *rand.Rand, base []gtok, n int) []c14Case {
 		if skip {
 			continue
 		}
-		out = append(out, c14Case{Text: renderTokens(ts), Toks: ts, How: how})
+		// comments are no tokens: some files carry them (rendering only)
+		shown := ts
+		if rng.Intn(3) == 0 {
+			shown = append([]gtok{}, ts...)
+			for n := 1 + rng.Intn(2); n > 0; n-- {
+				j := rng.Intn(len(shown) + 1)
+				if j == len(shown) && len(shown) > 0 && shown[j-1].Kind == "illegal" {
+					j-- // nothing may follow an unterminated literal or comment at the end of the file
+				}
+				cm := gtok{"comment", "/* note */"}
+				if rng.Intn(2) == 0 {
+					cm = gtok{"comment", "// note\n"}
+				}
+				shown = append(shown[:j:j], append([]gtok{cm}, shown[j:]...)...)
+			}
+		}
+		out = append(out, c14Case{Text: renderTokens(shown), Toks: ts, How: how})
 	}
 	return out
 }
@@ -275,7 +311,7 @@ func (c *Ctx) c14Judge(cs []c14Case) []c14Verdict {
 
 func checkC14(c *Ctx) {
 	c.Level = "model_checking"
-	c.Set("rule", "base grammars rendered by the harness are tokenised by construction; seeded mutation operators (token deletion/insertion/substitution from the whole token alphabet, reference renaming to a fresh name, duplication of a lexical definition, an alternative left empty) produce grammar files; GoccSyntax.tla judges every file: the token sequence is run through the canonical LR(1) machine of spec/gocc2.ebnf computed by LR1.tla (independent of the shipped tables), definitions/references are checked for undefined and duplicate names; for every file judged ill-formed the real gocc must exit non-zero. One-directional (ill => refused). distinct_nontrivial counts distinct ill-formed files")
+	c.Set("rule", "base grammars rendered by the harness are tokenised by construction; seeded mutation operators (token deletion/insertion/substitution from the whole token alphabet, insertion of character sequences that form no token (stray punctuation, malformed and unterminated literals and comments), comments sprinkled over a third of the files, reference renaming to a fresh name, duplication of a lexical definition, an alternative left empty) produce grammar files; GoccSyntax.tla judges every file: the token sequence is run through the canonical LR(1) machine of spec/gocc2.ebnf computed by LR1.tla (independent of the shipped tables), definitions/references are checked for undefined and duplicate names; for every file judged ill-formed the real gocc must exit non-zero. One-directional (ill => refused). distinct_nontrivial counts distinct ill-formed files")
 	c.Assume("mutants never contain the words error/empty (known finding F8: gocc's scanner treats them as token identifiers); the unmutated base files must be judged well-formed (self-check of the judge)")
 	rng := rand.New(rand.NewSource(c.Seed))
 	var all []c14Case
